@@ -366,7 +366,7 @@ theorem write_then_query_roundtrip (p : SPoint) (h : p.Ok) (hs : LineShape (show
   have hblock := block_roundtrip p h hs mult hm (by
     intro t' ht'
     rw [hts] at ht'; cases ht'
-    unfold maxNanoTime at hfit; unfold maxInt64; omega)
+    unfold maxNanoTime OG.Gen.C06.maxNanoTimeGen at hfit; unfold maxInt64; omega)
   have hkeys : ((p.fields.map SField.field).map storeField).map (·.1) = p.fields.map SField.key := by
     simp only [List.map_map]
     apply List.map_congr_left
@@ -384,7 +384,7 @@ theorem write_then_query_roundtrip (p : SPoint) (h : p.Ok) (hs : LineShape (show
     refine ⟨rfl, ?_, hfit, hname, htk, by simp only; rw [hkeys]; exact hfk, ?_, hnt,
       by simp only; rw [hkeys]; exact hnf, ?_⟩
     · have : (0 : Int) ≤ (t : Int) * mult := Int.mul_nonneg (by omega) (by omega)
-      unfold minNanoTime; omega
+      unfold minNanoTime OG.Gen.C06.minNanoTimeGen; omega
     · intro k hk
       simp only
       rw [hkeys]
